@@ -593,6 +593,7 @@ class IvpProblem:
         steps = torch.tensor(p["steps"], dtype=DT)          # each in [0.2, 0.6], <= 3 steps
         sgn = -1.0 if p["backward_time"] else 1.0
         self.ts = torch.cat([torch.zeros(1, dtype=DT), torch.cumsum(steps, 0)]) * sgn + p["t0"]
+        self.ystate = p.get("ystate", "tensor")
         self.leaves = [self.A, self.y0]
 
     @staticmethod
@@ -604,7 +605,18 @@ class IvpProblem:
         kw = dict(fwd)
         if bck is not None:
             kw["bck_options"] = bck
-        return [solve_ivp(self.fcn, self.ts, self.y0, (self.A,), method=method, **kw)]
+        if self.ystate == "tensor":
+            return [solve_ivp(self.fcn, self.ts, self.y0, (self.A,), method=method, **kw)]
+        # the documented other form of the state: a list / tuple of tensors (here the two components as separate (1,) tensors); the
+        # caller's method and both option sets must be honoured exactly as for a tensor state
+        seq = tuple if self.ystate == "tuple" else list
+
+        def fcn_seq(t, ys, A):
+            dy = A @ torch.cat([y.reshape(-1) for y in ys])
+            return seq([dy[:1], dy[1:]])
+        res = solve_ivp(fcn_seq, self.ts, seq([self.y0[:1], self.y0[1:]]), (self.A,), method=method, **kw)
+        assert isinstance(res, (list, tuple)) and len(res) == 2, "state given as a sequence: the result must be a sequence of the same length"
+        return [torch.cat([r.reshape(len(self.ts), -1) for r in res], dim=-1)]
 
     def ref(self):
         return [torch.stack([torch.matrix_exp(self.A * (t - self.ts[0])) @ self.y0 for t in self.ts])]
@@ -1125,7 +1137,8 @@ def _prob_st(draw, fn):
         return {"n": draw(st.integers(1, 3))}
     if fn == "solve_ivp":
         return {"steps": draw(st.lists(st.sampled_from([0.2, 0.3, 0.45, 0.6]), min_size=1, max_size=3)),
-                "backward_time": draw(st.booleans()), "t0": draw(st.sampled_from([0.0, 0.5, -1.0]))}
+                "backward_time": draw(st.booleans()), "t0": draw(st.sampled_from([0.0, 0.5, -1.0])),
+                "ystate": draw(st.sampled_from(["tensor", "tensor", "tuple", "list"]))}
     if fn == "quad":
         forms = ["float", "t", "tg"]
         return {"m": draw(st.integers(1, 3)), "xl": draw(fl), "xu": draw(fl), "xlform": draw(st.sampled_from(forms)),
@@ -1538,6 +1551,8 @@ def run_custom(case):
         labels.append("unknowns=" + (">5" if case["prob"]["n"] > 5 else "<=5"))
     if fn == "solve":
         labels.append("operator=" + case["prob"].get("op", "matrix"))
+    if fn == "solve_ivp":
+        labels.append("ivp_state=%s/bck=%s" % (case["prob"].get("ystate", "tensor"), case["bckmode"]))
     prob, g = build(case)
     fwd = {k: _val(v) for k, v in case["fwd"].items()}
     bck = {k: _val(v) for k, v in case["bck"].items()}
@@ -1798,7 +1813,7 @@ def _prob_rand(fn, r):
         return {"n": r.randint(1, 3)}
     if fn == "solve_ivp":
         return {"steps": [r.choice([0.2, 0.3, 0.45, 0.6]) for _ in range(r.randint(1, 3))], "backward_time": r.random() < 0.5,
-                "t0": r.choice([0.0, 0.5, -1.0])}
+                "t0": r.choice([0.0, 0.5, -1.0]), "ystate": r.choice(["tensor", "tensor", "tuple", "list"])}
     if fn == "quad":
         forms = ["float", "t", "tg"]
         return {"m": r.randint(1, 3), "xl": round(r.uniform(-1.5, 1.5), 3), "xu": round(r.uniform(-1.5, 1.5), 3),
